@@ -438,14 +438,18 @@ class FD:
             env[params[0]] = bound_self
             params = params[1:]
         defaults = fn.args.defaults
-        for p, d in zip(params[len(params) - len(defaults):], defaults):
-            env[p] = self.eval(d, {})
         for p, a in zip(params, args):
             env[p] = a
         if fn.args.vararg is not None:
             env[fn.args.vararg.arg] = tuple(args[len(params):])
         for k, v in (kwargs or {}).items():
             env[k] = v
+        for p, d in zip(params[len(params) - len(defaults):], defaults):
+            if p not in env:
+                env[p] = self.eval(d, {})
+        for a, d in zip(fn.args.kwonlyargs, fn.args.kw_defaults):
+            if a.arg not in env and d is not None:
+                env[a.arg] = self.eval(d, {})
         for p in params:
             if p not in env:
                 raise Inconclusive('fdeval: missing argument %s' % p)
